@@ -196,11 +196,23 @@ func TestStressJoinV1(t *testing.T) {
 				if noCopy {
 					if n == 40 {
 						// Stop() arrives while the slice is not released: it must never be touched again
-						snapshot := append([]int(nil), s...)
-						dsc.Stop()
+						// (the consumer owns the slice until it releases it: it keeps writing into it while Stop() runs, so that
+						// the race detector sees any access the discipline still makes)
+						stopped := make(chan struct{})
+						go func() {
+							dsc.Stop()
+							close(stopped)
+						}()
+						deadline := time.Now().Add(3 * time.Millisecond)
+						for time.Now().Before(deadline) {
+							for i := range s {
+								s[i] = -2
+							}
+						}
+						<-stopped
 						time.Sleep(time.Millisecond)
 						for i := range s {
-							if s[i] != snapshot[i] {
+							if s[i] != -2 {
 								t.Fatal("unreleased slice modified after Stop")
 							}
 						}
